@@ -75,6 +75,8 @@ def run_case(case, ctx):
         opts.update(ns=[100000, 100001, 50000, 150000][case['seed'][1] % 4],       # also exact multiples of the batch size
                      n_samples=2000000, features=['sparse', 'dense'][case['seed'][1] % 2],
                     clusters='same', nt=4, nc=6)
+    if opts['wm'] and case['seed'][-1] % 9 == 6:
+        opts.update(wm_tri=['lower', 'upper'][case['seed'][-1] % 2], shanks=max(2, opts.get('shanks', 0) or 0))     # one-directional coupling, several shanks
     if opts['wm'] and not opts['wmi_only'] and case['seed'][-1] % 9 == 4:
         opts['wm_scale'] = 4e-9        # a coupling matrix in tiny units: every off-diagonal entry is far below 1e-8
     opts.update(dtype_amps=['float64', 'float32'][int(rng.integers(0, 2))],
@@ -100,6 +102,11 @@ def run_case(case, ctx):
             bio = io.BytesIO()
             np.save(bio, arr)
             spec.extra_files[fn] = bio.getvalue()
+    if case['seed'][-1] % 10 == 7 and not spec.curated and spec.template_ind is None:
+        # a template whose FIRST sample is NaN on every channel (the rest is data): not an empty template - its amplitudes are
+        # undefined (NaN), not zero
+        spec.templates[int(rng.integers(0, spec.n_templates)), 0, :] = np.nan
+        spec.notes['nan_first_sample'] = True
     if case['seed'][-1] % 5 == 3:
         # every spike of one template has a stored amplitude of exactly 0: its mean is 0 (it has spikes), not NaN
         spec.amplitudes[spec.spike_templates == spec.spike_templates[0]] = 0
